@@ -426,6 +426,15 @@ def run_case(case):
             if exc is not None or alone != res["obs"][nm]:
                 out.fail("fallback-mismatch", {"stream": nm, "r": r, "via_seed_updater": res["obs"][nm],
                                                "fallback_alone": alone, "fallback_exc": exc})
+            # the seed table may be any dict - also one that makes up entries when it is asked for a missing key
+            import collections
+            from pydsol.core.streams import StreamSeedUpdater as _SSU
+            dd = collections.defaultdict(list, {k: list(v) for k, v in table.items()})
+            d = _build([sp])
+            exc = _call(_SSU(dd).update_seeds, d, r)
+            if exc is not None or _obs(d[nm]) != alone or nm in dd:
+                out.fail("fallback-mismatch:defaultdict-table", {"stream": nm, "r": r, "exc": exc,
+                                                                "table_gained_the_name": nm in dd})
             # a custom fallback is the one that serves the stream
             upd = _seeded(table)
             probe = _Fallback.make()
